@@ -152,4 +152,35 @@ pub fn kh_dd_zero_q(s: &mut Src) -> R {
     }
     Ok(())
 }
-crate::harness_table!(COB: cob_closed_eval [unwind 8], cob_open_part_eval [unwind 8], cob_lc_inv [unwind 4], kh_canon_cycles [unwind 4], kh_dd_zero_q [unwind 4]);
+// C04 end to end (BOUNDED, sampled): the graded Euler characteristic of the bigraded Khovanov homology over Z at h = t = 0,
+// sum (-1)^i rank H^{i,j} q^j, is the (unnormalised) Jones polynomial computed from the state sum.  Links: closures of random braid words
+// on 2..3 strands with up to 5 letters (every strand touched; multi-component links included) and their mirrors.
+pub fn kh_euler_jones(s: &mut Src) -> R {
+    use yui_link::{Braid, Generator};
+    use yui_link::util::jones_polynomial;
+    use yui_kh::kh::KhHomologyBigraded;
+    use yui_homology::SummandTrait;
+    use yui::poly::LPoly;
+    type P = LPoly<'q', i32>;
+    let n = s.small(2, 3) as usize;
+    let len = s.small(1, 5) as usize;
+    let mut word: Vec<i32> = vec![];
+    for k in 0..5 { let i = s.small(1, 2); let neg = s.bool(); if k < len { let i = ((i - 1) % (n as i64 - 1) + 1) as i32; word.push(if neg { -i } else { i }); } }
+    let mirror = s.bool();
+    let mut touched = vec![false; n];
+    for &g in &word { let i = (g.unsigned_abs() - 1) as usize; touched[i] = true; touched[i + 1] = true; }
+    pre!(touched.iter().all(|&t| t));
+    reach!();
+    let mut l = Braid::new(n, word.iter().map(|&g| Generator::from(g)).collect()).closure();
+    if mirror { l = l.mirror(); }
+    let kh = KhHomologyBigraded::<i64>::new(&l, &0, &0, false);
+    let mut terms: std::collections::BTreeMap<isize, i32> = Default::default();
+    for i in kh.h_range() { for j in kh.q_range() {
+        let r = kh[(i, j)].rank() as i32;
+        if r != 0 { *terms.entry(j).or_insert(0) += if i.rem_euclid(2) == 0 { r } else { -r }; }
+    } }
+    let chi = P::from_iter(terms.into_iter().filter(|(_, c)| *c != 0).map(|(j, c)| (P::mono(j), c)));
+    ob!(chi == jones_polynomial(&l), "graded-Euler-characteristic(Kh)==Jones");
+    Ok(())
+}
+crate::harness_table!(COB: cob_closed_eval [unwind 8], cob_open_part_eval [unwind 8], cob_lc_inv [unwind 4], kh_canon_cycles [unwind 4], kh_dd_zero_q [unwind 4], kh_euler_jones [unwind 4]);
